@@ -741,6 +741,17 @@ impl Client {
     }
 }
 
+#[cfg(any(repe_verif, repe_verif_loom))]
+impl Client {
+    /// Verification only: number of calls currently registered as awaiting a response.
+    pub fn verif_pending_len(&self) -> usize {
+        match self.inner.pending.lock() {
+            Ok(g) => g.len(),
+            Err(p) => p.into_inner().len(),
+        }
+    }
+}
+
 fn spawn_response_loop(mut reader: BufReader<TcpStream>, inner: std::sync::Weak<ClientInner>) {
     thread::spawn(move || {
         loop {
